@@ -97,6 +97,16 @@ func VfC19Config() {
 	if vf.Bool() {
 		st.ResolveConfig["other.myco"] = "fd00::8"
 	}
+	if cs.valid && cs.raw != cs.clean && vf.Bool() {
+		// the same name written twice in different spellings with DIFFERENT addresses: whichever the
+		// parser met last would win - the answer would depend on map iteration order, not on the
+		// configuration. Such a configuration has to be refused.
+		st.ResolveConfig[cs.clean] = "fd00::9"
+		_, err := st.parse(true)
+		vf.Assert(err != nil, "ambiguous-resolve-entries-accepted")
+		vf.Reach("ambiguous-refused")
+		return
+	}
 	c, err := st.parse(true)
 	if !cs.valid {
 		vf.Assert(err != nil, "invalid-resolve-name-accepted")
